@@ -27,7 +27,7 @@ type c20BurstCase struct {
 
 func TestVerifC20Layer2Burst(t *testing.T) {
 	vw.Run(t, vw.Options{Property: "C20", Engine: "layer2-burst",
-		Rule: "1100..4000 services are announced and re-announced in a loop for 1.3..1.8 s (longer than one tick of the periodic announcement loop, more entries than its queue holds) against the real spamLoop goroutine while 1..2 goroutines query status and the answer decision; the announcing side must finish (watchdog 15 s); every run counts as non-trivial",
+		Rule:        "1100..4000 services are announced and re-announced in a loop for 1.3..1.8 s (longer than one tick of the periodic announcement loop, more entries than its queue holds) against the real spamLoop goroutine while 1..2 goroutines query status and the answer decision; the announcing side must finish (watchdog 15 s); every run counts as non-trivial",
 		Assumptions: []string{"real time; a watchdog of 15 s (normal completion: the configured duration) decides 'blocked for good'"}},
 		func(rt *rapid.T) c20BurstCase {
 			return c20BurstCase{Services: rapid.IntRange(1100, 4000).Draw(rt, "services"), Millis: rapid.IntRange(1300, 1800).Draw(rt, "millis"), Readers: rapid.IntRange(1, 2).Draw(rt, "readers")}
